@@ -38,12 +38,6 @@ func TestSmoke(t *testing.T) {
 	spec := tokensim.Spec{Chains: 3, Links: []tokensim.LinkSpec{{K: 0, A: 0, B: 1}, {K: 1, A: 0, B: 1}, {K: 2, A: 0, B: 1}, {K: 0, A: 1, B: 2}, {K: 1, A: 1, B: 2}, {K: 2, A: 2, B: 0}},
 		Denoms: [][]string{{"ufoo", "gamm/pool/1"}, {"ufoo"}, {"atom2"}}}
 	w := tokensim.NewWorld(t, spec)
-	t.Logf("world0: %v", time.Since(t0))
-	t0 = time.Now()
-	w = tokensim.NewWorld(t, tokensim.Spec{Chains: 2, Links: spec.Links[:3]})
-	t.Logf("world 2 chains 3 links: %v", time.Since(t0))
-	t0 = time.Now()
-	w = tokensim.NewWorld(t, spec)
 	t.Logf("world: %v, links=%d ends=%d", time.Since(t0), len(w.Links), len(w.Ends))
 	no := 0
 	run := func(op tokensim.Op) *tokensim.Step {
